@@ -725,11 +725,14 @@ def rule_collect_gate(ctx, R_collect, R_use):
                     tgt = eb.place(s['lhs']['l'], (), 0, (i, si))
                     if tgt.has_call('feature_mut'):
                         v = eb._rvalue(s['rv'], (), 0, (i, si))
+                        from lib import expand_conditions
                         conds = path_conditions(ob, i)
-                        merge = any(k.kind == 'bool' and k.truth is True and k.expr.strip().kind == 'place' and
-                                    k.expr.strip().root == ('param', 7) for k in conds)
-                        notok = any(k.kind == 'bool' and k.truth is False and k.expr.kind == 'call' and
-                                    k.expr.name == HELPER['usable'] for k in conds)
+                        merge = notok = True
+                        for cv in expand_conditions(ob, conds):
+                            merge = merge and any(k.kind == 'bool' and k.truth is True and k.expr.strip().kind == 'place'
+                                                  and k.expr.strip().root == ('param', 7) for k in cv)
+                            notok = notok and any(k.kind == 'bool' and k.truth is False and k.expr.kind == 'call' and
+                                                  k.expr.name == HELPER['usable'] for k in cv)
                         cleared = True
                         n += 1
                         ctx.check(merge and notok and v.kind == 'agg' and v.name.endswith('Option::None'), R_collect, ob,
